@@ -81,7 +81,7 @@ def _gen_lemmas(task):
     for lm in cfile.lemmas:
         try:
             g = engc.VCGen(dict(functions={}, protos={}, relpath=relpath), cfile, consts)
-            g.assumes = []; g.ghostfuns = {}; g.ghost_level = {}
+            g.assumes = []; g.ghostfuns = {}; g.ghost_level = {}; g.uf_mul = False; g._rmul = None
             binds = {}
             for nm, srt in lm['decl']:
                 nm = nm.strip(); srt = srt.strip()
